@@ -9,6 +9,8 @@ import sys
 import time
 
 VERIF = os.path.dirname(os.path.dirname(os.path.abspath(__file__)))
+# development only (parallel mutant runs against scratch copies): where out/ and evidence/ are written; registered commands never set it
+OUT_ROOT = os.environ.get('VERIF_OUT_ROOT', VERIF)
 
 
 class Broken(Exception):
@@ -82,7 +84,7 @@ class Run:
         known = [o for o in self.obligations if o['verdict'] == 'known']
         okc = [o for o in self.obligations if o['verdict'] == 'ok']
         wall = time.time() - self.t0
-        outdir = os.path.join(VERIF, 'out', self.pid)
+        outdir = os.path.join(OUT_ROOT, 'out', self.pid)
         os.makedirs(outdir, exist_ok=True)
         for f in os.listdir(outdir):
             if f.startswith('violation-'):
@@ -126,8 +128,8 @@ class Run:
         ev = {'property_id': self.pid, 'tier': self.tier, 'seed': self.seed, 'level': self.level,
               'coverage': cov, 'assumptions': self.assumptions, 'wall_s': round(wall, 2),
               'violations': len(viol)}
-        os.makedirs(os.path.join(VERIF, 'evidence'), exist_ok=True)
-        with open(os.path.join(VERIF, 'evidence', self.pid + '.json'), 'w') as f:
+        os.makedirs(os.path.join(OUT_ROOT, 'evidence'), exist_ok=True)
+        with open(os.path.join(OUT_ROOT, 'evidence', self.pid + '.json'), 'w') as f:
             json.dump(ev, f, indent=1, sort_keys=True)
             f.write('\n')
 
